@@ -67,14 +67,14 @@ CHECKS = {
     "C15": (
         "progmc c15",
         "bounded-exhaustive enumeration of the (expression kind, const position) matrix, each compiled by the real CLI, against the README's const rule; accepted cells executed",
-        "21 integer expression kinds (literal, `::` local of literal / of `::` local / of comptime block, global, global of global, comptime global, global declared after use, imported global (of global), `:=` local, `::` of `:=`, `::` of `::` of `:=`, a local declared without a value (also assigned later, also behind a `::`), `::` of call, call, struct member, runtime parameter, runtime arithmetic) x {array length, enum discriminant, comptime argument} and 16 type expression kinds x {annotation, comptime type argument, array element type}, comptime parameters in every position, also declared after / between runtime parameters: accepted iff const by the rule, rejections must be 'not constant' diagnostics; accepted array lengths are observed (`len`, last element) for lengths 1, 2, 5, 17, 100.",
+        "24 integer expression kinds (literal, `::` local of literal / of `::` local / of comptime block, global, global of global, comptime global, global declared after use, imported global (of global), `:=` local, `::` of `:=`, `::` of `::` of `:=`, a local declared without a value (also assigned later, also behind a `::`), globals that are not const themselves (bound to a call, with and without a type annotation, and a global of such a global), `::` of call, call, struct member, runtime parameter, runtime arithmetic) x {array length, enum discriminant, comptime argument} and 16 type expression kinds x {annotation, comptime type argument, array element type}, comptime parameters in every position, also declared after / between runtime parameters: accepted iff const by the rule, rejections must be 'not constant' diagnostics; accepted array lengths are observed (`len`, last element) for lengths 1, 2, 5, 17, 100.",
         "Arithmetic on literals, parenthesised literals and a bare comptime block in the position are not judged; extern globals are not generated.",
         "§4 C15",
     ),
     "C16": (
         "progmc c16",
         "bounded-exhaustive enumeration of (generic template, sequence of instantiation tuples, same file / imported) cases; generic calls and hand-substituted monomorphic copies are both executed and compared with a Python model of the template",
-        "11 generic templates with 1-3 comptime parameters (one with runtime and comptime parameters interleaved) (type, usize, struct type, distinct type) used in annotations, casts, array lengths, nested generic calls, inline header references `(comptime T: type, x: T) -> T`, varargs of T and field access x every sequence of 1..3 (thorough 4) instantiation tuples from the template's 3-5 tuple alphabet (equal tuples repeat, different tuples interleave) x generic defined in the same file / in an imported file: the generic calls and the calls of textually substituted copies print their results; both must equal the model.",
+        "11 generic templates with 1-3 comptime parameters (one with runtime and comptime parameters interleaved) (type, usize, struct type, distinct type) used in annotations, casts, array lengths, nested generic calls, inline header references `(comptime T: type, x: T) -> T`, varargs of T and field access x every sequence of 1..3 (thorough 4) instantiation tuples from the template's 3-5 tuple alphabet (equal tuples repeat, different tuples interleave) x generic defined in the same file / in an imported file: the generic calls and the calls of textually substituted copies print their results; both must equal the model. Plus comptime arguments spelled as named constants (of the same file or of an imported file, directly and through one or two aliases, types and lengths, every combination for the mixed template) while the calling file defines unrelated constants of the same names.",
         "The substituted copy is produced by textual substitution in the generator; comptime blocks inside generic bodies are not generated (the compiler does not implement them: see the C05 known finding).",
         "§4 C16",
     ),
@@ -144,7 +144,7 @@ CHECKS = {
     "C03": (
         "progmc c03",
         "bounded-exhaustive enumeration of control skeletons against a defer-stack reference interpreter, each compiled and executed by the real CLI",
-        "Every control skeleton over {defer, defer whose expression contains its own conditional break of a labelled block, print, block, labelled block, while, labelled while, while whose condition block breaks out of the loop, loop, if, break, break `l, continue, continue `l, return, .try} with <= 4 items / depth 2 (thorough: <= 5 items / depth 3: 52970 skeletons), as the body of four function forms (`-> ?i32` with a tail value; void, `-> ?void` and `-> Err!void` bodies that fall off their end; quick: the three extra forms up to 3 items), is compiled by the real CLI and run with both values of the branch-driving parameter; the printed character sequence (one letter per defer and per print) must equal the interpreter's, which checks exactly-once, LIFO, inner-before-outer and not-reached-not-run in one comparison.",
+        "Every control skeleton over {defer, defer whose expression contains its own conditional break of a labelled block, print, block, labelled block, while, labelled while, while whose condition block breaks out of the loop, loop, if, break, break `l, continue, continue `l, return, .try} with <= 4 items / depth 2 (thorough: <= 5 items / depth 3: 52970 skeletons), as the body of six function forms (`-> ?i32` and `-> Err!i32` with a tail value; void, `-> ?void` and `-> Err!void` bodies that fall off their end; `-> Nothing` for a data-less error type `Nothing :: struct {}`, so that `.try` propagates into a zero-sized result; quick: the five extra forms up to 3 items), is compiled by the real CLI and run with both values of the branch-driving parameter; the printed character sequence (one letter per defer and per print) must equal the interpreter's, which checks exactly-once, LIFO, inner-before-outer and not-reached-not-run in one comparison.",
         "Skeletons beyond the bound (7 items, depth 4) are not reached; deferred expressions are single prints or the one jump-containing form.",
         "§4 C03",
     ),
